@@ -90,6 +90,32 @@ CHECKS = {
         technique="TLA+ system model (signature adversary operator algebra) checked by TLC; spec->code replay; code->spec trace validation with the signature standards "
                   "transcribed in TLA+ and witnessed big-number relations",
     ),
+    "C05": dict(
+        category="model_checking",
+        text="sys/KeyPipeline is explored exhaustively by TLC (mc/KeyPipelineMC): every toy key of six key types (RSA, DSA, ElGamal, short-Weierstrass, "
+             "twisted-Edwards, Montgomery x-only; toy curves found by exhaustive search and ASSUMEd against the group law) in every construct() form and import "
+             "format with no, one or two ordered component corruptions (30 038 submitted cases). Invariants Sound/Complete: the documented validation relations "
+             "accept exactly the tuples that satisfy what the key is for (RSA decryption inverts encryption for every message, g has order q by brute force, the "
+             "public point is the d-th multiple in the table, a Montgomery u is none of the small-order values found by enumerating curve and twist); a pipeline that "
+             "forgets the coordinate range check is shown to violate Sound. The cases are concretised on real keys (512/768-bit fixed and a per-run 1024-bit RSA key, "
+             "DSA domains of 24..2048 bits, ElGamal safe primes, the nine curves; DER and PEM; PKCS#1, PKCS#8, SPKI incl. compressed, SEC 1, OpenSSH) and offered to "
+             "the real construct()/import_key(), each call in a forked child under a deadline; generate() of all four types is driven with deterministic randfunc "
+             "tapes, including entropy scripted so that the first prime candidates give d < 2^(nlen/2). TLC judges every record with trace/KeyTrace: validity of the "
+             "offered components is computed in data/KeyInvariants (n = p q, e d = 1 mod lcm with a certified gcd, CRT values, q | p-1, g^q = 1 and g^x = y by "
+             "certified square-and-multiply chains, curve equation with reduction witnesses, Q = d G link by link, RFC 8032 / RFC 7748 clamping with SHA-512 / "
+             "SHAKE256 in TLA+, small order by three projective doublings) and compared with the outcome class; a returned key is judged on its own components; "
+             "generated keys additionally on exact size and FIPS 186-4 sizes and margins.",
+        design_ref="DESIGN.md section 6, C05",
+        note="Trusted: TLC; data/KeyInvariants, ECGroup, BigNat, SHA512, Sponges (pinned by OpenSSL-generated RSA/DSA keys, RFC 8032 / RFC 7748 key pairs and toy "
+             "vectors as ASSUMEs checked at setup). Witnesses are untrusted. 'Probable prime' is decided only up to: exact trial division below 2^24, no prime "
+             "factor below 100, no factorisation exhibited by the recorder, and for sampled records one certified Miller-Rabin round to base 2 - weaker than the "
+             "statement. Permissive where the statement is silent (named operators): d >= n, modulus offered without recoverable factors, public key with "
+             "gcd(n, e) > 1, CRT fields of an RSAPrivateKey that the importer recomputes, public DSA/ElGamal value outside the subgroup, small-order Edwards public "
+             "points, non-canonical X25519/X448 u, non-canonical Ed encodings, refusals of ElGamal.generate, IndexError/TypeError from RSA.import_key (documented). "
+             "Encrypted containers, X.509 and OpenSSH private keys are C08/C13's subject.",
+        technique="TLA+ system model of the validation pipeline checked exhaustively by TLC; spec->code replay of the enumerated cases on real keys; code->spec trace "
+                  "validation with the key invariants transcribed in TLA+ as witnessed big-number relations",
+    ),
     "C06": dict(
         category="model_checking",
         text="sys/KeyAgreement is explored exhaustively by TLC: every equipment of two parties with static/ephemeral key pairs on up to two curves, every delivery of "
